@@ -18,12 +18,16 @@ PosLE(l1, c1, l2, c2) == l1 < l2 \/ (l1 = l2 /\ c1 <= c2)
 
 NoToken == [found |-> FALSE]
 
-(* greatest lower bound; M sorted by (gl, gc) *)
-RECURSIVE LookupFrom(_, _, _, _, _)
-LookupFrom(M, l, c, i, best) ==
-  IF i > Len(M) \/ ~PosLE(M[i].gl, M[i].gc, l, c) THEN best
-  ELSE LookupFrom(M, l, c, i + 1, [found |-> TRUE, tok |-> M[i]])
-Lookup(M, l, c) == LookupFrom(M, l, c, 1, NoToken)
+(* greatest lower bound; M sorted by (gl, gc): binary search for the last token <= (l, c) *)
+RECURSIVE GlbIndex(_, _, _, _, _)
+GlbIndex(M, l, c, lo, hi) ==       \* invariant: tokens 1..lo-1 are <= (l,c), tokens hi+1.. are > (l,c)
+  IF lo > hi THEN lo - 1
+  ELSE LET mid == (lo + hi) \div 2 IN
+       IF PosLE(M[mid].gl, M[mid].gc, l, c) THEN GlbIndex(M, l, c, mid + 1, hi)
+       ELSE GlbIndex(M, l, c, lo, mid - 1)
+Lookup(M, l, c) ==
+  LET i == GlbIndex(M, l, c, 1, Len(M)) IN
+  IF i = 0 THEN NoToken ELSE [found |-> TRUE, tok |-> M[i]]
 
 (* what a consumer sees at a generated position: nothing, or (src, line, col, name) *)
 Resolve(M, l, c) ==
